@@ -440,7 +440,92 @@ def annotate_closure(text, start, nth, header_lines, tagger):
     return text[:ps] + hdr + '\n' + body + text[be:]
 
 
+def _tail_pos(m, open_idx):
+    """position where a statement can be inserted at the end of the block opened at open_idx:
+    before the block's tail expression, or before its closing brace if there is none"""
+    close = match_close(m, open_idx)
+    j = open_idx + 1
+    last = open_idx + 1
+    depth = 0
+    while j < close:
+        c = m[j]
+        if c in '([{':
+            depth += 1
+        elif c in ')]}':
+            depth -= 1
+            if depth == 0 and c == '}':
+                k = j + 1
+                while k < close and m[k].isspace():
+                    k += 1
+                if not (m.startswith('else', k) or (k < close and m[k] in '.?')):
+                    last = j + 1
+        elif c == ';' and depth == 0:
+            last = j + 1
+        j += 1
+    return last, close
+
+
+def r11_events_commit(text):
+    """`let mut X = self.transaction_events.init();` -> local batch + explicit commit (the extracted Drop body)
+    where X goes out of scope (end of the enclosing block, before its tail expression)."""
+    n = 0
+    pat = re.compile(r'let mut (' + _IDENT + r') =\s*self\.transaction_events\.init\(\);')
+    while True:
+        m = mask(text)
+        mo = pat.search(m)
+        if not mo:
+            break
+        var = mo.group(1)
+        # enclosing block
+        depth = 0
+        k = mo.start()
+        while k >= 0:
+            if m[k] in ')]}':
+                depth += 1
+            elif m[k] in '([{':
+                if depth == 0:
+                    break
+                depth -= 1
+            k -= 1
+        if k < 0 or m[k] != '{':
+            raise ExtractError('R11: enclosing block not found')
+        last, close = _tail_pos(m, k)
+        between = m[mo.end():last]
+        if re.search(r'(?<![A-Za-z0-9_])return(?![A-Za-z0-9_])', between) or '?' in between:
+            raise ExtractError('R11: early exit between init() and the end of the scope of the event batch')
+        commit = '\nself.transaction_events.vx_commit(%s);\n' % var
+        text = text[:last] + commit + text[last:]
+        text = text[:mo.start()] + 'let mut %s = VxEvents::vx_init();' % var + text[mo.end():]
+        n += 1
+    return text, n
+
+
+def r3v_for_vec(text):
+    """`for X in V { B }` with V a Vec of Copy items -> indexed while (vec::IntoIter yields the elements in order)"""
+    n = 0
+    pat = re.compile(r'(?<![A-Za-z0-9_])for (' + _IDENT + r') in (' + _IDENT + r') \{')
+    while True:
+        m = mask(text)
+        mo = pat.search(m)
+        if not mo:
+            break
+        x, v = mo.group(1), mo.group(2)
+        j = mo.end() - 1
+        close = match_close(m, j)
+        body = text[j + 1:close]
+        if re.search(r'(?<![A-Za-z0-9_])continue(?![A-Za-z0-9_])', mask(body)):
+            raise ExtractError('R3V: loop body contains continue')
+        i = 'vx_i%d' % n
+        new = ('let mut %s: usize = 0;\nwhile %s < %s.len() {\nlet %s = %s[%s];%s\n%s += 1;\n}'
+               % (i, i, v, x, v, i, body.rstrip(), i))
+        text = text[:mo.start()] + new + text[close + 1:]
+        n += 1
+    return text, n
+
+
 RULES = {
+    'R3V': r3v_for_vec,
+    'R11': r11_events_commit,
     'R3': r3_enumerate,
     'R4': r4_for_iter,
     'R5': r5_mut_self,
